@@ -176,7 +176,7 @@ void run_case(Ctx &c) {
     c.nontrivial = c.checks > 20;
 }
 long ncases(const std::string &tier) { return NG(tier) + (tier == "quick" ? 40 : 1200); }
-std::vector<std::string> witnesses() { return {"d10-multi-letter-power"}; }
+std::vector<std::string> witnesses() { return {"d10-multi-letter-power", "d25-slice-width-epsilon"}; }
 void run_witness(Ctx &c, const std::string &name) {
     if (name == "d10-multi-letter-power") {
         for (const char *base : {"Sv", "Wb", "mol"}) for (int pw : {2, -1}) {
@@ -184,6 +184,15 @@ void run_witness(Ctx &c, const std::string &name) {
             double got = 0; try { got = util::getSIScaling(ua, ub); c.check(rel_close(got, std::pow(10.0, -3 * pw)), "C18/factor/value/power", ua + "->" + ub + " = " + dstr(got)); }
             catch (std::exception &e) { c.check(false, "C18/factor/exception/multi-letter/power", ua + " -> " + ub + " threw " + e.what()); }
         }
+    }
+    else if (name == "d25-slice-width-epsilon") {
+        // the slice [0.625, 0.75) mT contains no sample of the axis 0, 0.25, 0.5, 0.75 mT: an error. The same slice in TT must not return data either.
+        File f = File::open(c.path("w.nix"), FileMode::Overwrite); Block b = f.createBlock("b", "t"); DataArray a = b.createDataArray("a", "t", DataType::Double, NDSize{4}); std::vector<double> d{0, 1, 2, 3}; a.setData(d); a.appendSampledDimension(0.25, "", "mT");
+        double fct = util::getSIScaling("TT", "mT");
+        c.op("dataSlice metamorphic Exclusive");
+        Got h1 = retrieve([&] { return util::dataSlice(a, {0.625}, {0.75}, {"mT"}, RangeMatch::Exclusive); }), h2 = retrieve([&] { return util::dataSlice(a, {0.625 / fct}, {0.75 / fct}, {"TT"}, RangeMatch::Exclusive); });
+        c.check(h1.threw == h2.threw && h1.data == h2.data, "C18/retrieval/slice/Exclusive", std::string("slice in mT ") + (h1.threw ? "raised" : "gave " + dshow(h1.data)) + ", the same slice in TT " + (h2.threw ? "raised" : "gave " + dshow(h2.data)));
+        f.close();
     }
     c.nontrivial = true;
 }
